@@ -479,6 +479,10 @@ func (p *Path) visitInstr(fr *frame, instr ssa.Instruction) continuation {
 		p.chanSend(fr, fr.get(instr.Chan).(*Chan), fr.get(instr.X))
 
 	case *ssa.Store:
+		if r, ok := fr.get(instr.Addr).(*SymRef); ok {
+			r.store(fr.get(instr.Val).(*Term))
+			break
+		}
 		addr := fr.get(instr.Addr).(*Value)
 		if addr == nil {
 			p.goPanic(fr, "invalid memory address or nil pointer dereference")
@@ -586,6 +590,10 @@ func (p *Path) visitInstr(fr *frame, instr ssa.Instruction) continuation {
 		x := fr.get(instr.X)
 		switch x := x.(type) {
 		case []Value:
+			if r := p.symRef(fr, x, idx64(fr, instr.Index)); r != nil {
+				fr.env[instr] = r
+				break
+			}
 			i := p.index(fr, idx64(fr, instr.Index), len(x))
 			fr.env[instr] = &x[i]
 		case *Value:
@@ -593,6 +601,10 @@ func (p *Path) visitInstr(fr *frame, instr ssa.Instruction) continuation {
 				p.goPanic(fr, "invalid memory address or nil pointer dereference")
 			}
 			a := (*x).(Array)
+			if r := p.symRef(fr, []Value(a), idx64(fr, instr.Index)); r != nil {
+				fr.env[instr] = r
+				break
+			}
 			i := p.index(fr, idx64(fr, instr.Index), len(a))
 			fr.env[instr] = &a[i]
 		default:
@@ -741,6 +753,9 @@ func (p *Path) indexRead(fr *frame, elems []Value, iv Value) Value {
 func (p *Path) unop(fr *frame, instr *ssa.UnOp, x Value) Value {
 	switch instr.Op {
 	case token.MUL: // load
+		if r, ok := x.(*SymRef); ok {
+			return r.load()
+		}
 		ptr, ok := x.(*Value)
 		if !ok {
 			engErr("load through %T", x)
